@@ -146,7 +146,7 @@ func runC18(r *an.Run) {
 		})
 
 	r.Obl("rate-ceiling-clamps", "GUARD",
-		"MaxFeeRateAllowed returns r.MaxFeeRate when Budget/size exceeds it and Budget/size otherwise; the fee function is constructed with that value as its ending rate; feeRateAtPosition returns the ending rate for p >= width or when the computed rate exceeds it, and the computed rate only below `rate <= endingFeeRate`",
+		"MaxFeeRateAllowed returns r.MaxFeeRate when Budget/size exceeds it and Budget/size otherwise; the fee function is constructed with that value as its ending rate, and a starting rate above it is replaced by it before the per-block delta and the current rate are derived; feeRateAtPosition returns the ending rate for p >= width or when the computed rate exceeds it, and the computed rate only below `rate <= endingFeeRate`",
 		"a ceiling above the budget rate or the configured maximum lets later bumps exceed what the property allows", 8,
 		func(o *an.Obl) {
 			f := p.Func(sw + "BumpRequest.MaxFeeRateAllowed")
@@ -202,6 +202,44 @@ func runC18(r *an.Run) {
 							o.FailAt(c.ID+"#ending", c.Where(kv.Pos()), "endingFeeRate is initialised from %s", an.Text(kv.Value))
 						}
 					}
+				}
+			}
+			// the starting rate is never above the ending rate when the
+			// per-block delta `end - start` is computed (the delta is stored
+			// in an unsigned type): either `start > end` is false or start
+			// was set to end
+			var deltas, caps []an.Site
+			for _, v := range c.Graph().V {
+				as, ok := v.Node.(*ast.AssignStmt)
+				if !ok || len(as.Lhs) != 1 || len(as.Rhs) != 1 {
+					continue
+				}
+				l, rhs := an.Text(as.Lhs[0]), c.Canon(as.Rhs[0])
+				if strings.Contains(an.Text(as.Rhs[0]), "end - start") {
+					deltas = append(deltas, an.Site{Fn: c, V: v, Node: as})
+				}
+				if l == "start" && as.Tok.String() == "=" {
+					o.Site("start = %s", rhs)
+					if an.Text(as.Rhs[0]) == "end" {
+						caps = append(caps, an.Site{Fn: c, V: v, Node: as})
+					} else {
+						o.FailAt(c.ID+"#start-reassigned", c.Where(as.Pos()), "the starting rate is reassigned to %s", rhs)
+					}
+				}
+			}
+			if need(o, c, "delta computation from end - start", deltas, 1) {
+				le := an.CmpX(an.LocalNamed("start"), an.LE, an.LocalNamed("end"), "start <= end")
+				if len(caps) == 0 {
+					// rejecting instead of capping is as good
+					guardedAll(o, c, deltas, le)
+				} else {
+					mustDoUnless(o, c, "start = end", caps, deltas, le)
+				}
+			}
+			for _, s := range c.Assigns(an.Field(sw+"LinearFeeFunction", "currentFeeRate", nil), false) {
+				o.Site("%s", s.String())
+				if len(deltas) > 0 {
+					before(o, c, "the cap of the starting rate", deltas, "the assignment of currentFeeRate", []an.Site{s})
 				}
 			}
 			h := p.Func(sw + "LinearFeeFunction.feeRateAtPosition")
